@@ -33,6 +33,8 @@ type vProxy struct {
 	lists      [][]string               // successive pending-list replies
 	listFail   []bool                   // per list call: answer 500
 	listCalls  int
+	listFailEmptyBody bool
+	settle     bool
 	requests   map[string][]byte        // wire form of the stored client requests
 	user       map[string]string        // asserted user per request
 	uploads    map[string]*http.Response // parsed response uploads per request id
@@ -63,7 +65,14 @@ func (p *vProxy) RoundTrip(req *http.Request) (*http.Response, error) {
 	case strings.HasSuffix(req.URL.Path, utils.PendingPath):
 		i := p.listCalls
 		p.listCalls++
+		if p.settle && rt.Bool("workersFinishBeforeList"+rt.Itoa(i)) {
+			// timing of earlier fetches and uploads relative to this poll: they complete first
+			rt.Quiesce()
+		}
 		if i < len(p.listFail) && p.listFail[i] {
+			if p.listFailEmptyBody {
+				return vPlain(503, "", nil), nil
+			}
 			return vPlain(500, "whoops", nil), nil
 		}
 		if i >= len(p.lists) {
@@ -373,6 +382,11 @@ func VerifC04Agent() {
 		prox.lists = append(prox.lists, l)
 		prox.listFail = append(prox.listFail, rt.Param("listFailures", 0) == 1 && rt.Bool("list"+rt.Itoa(k)+".fails"))
 	}
+	prox.listFailEmptyBody = rt.Param("listFailures", 0) == 1 && rt.Bool("failuresHaveEmptyBody")
+	if rt.Param("uploadFaults", 0) == 1 && rt.Bool("uploadOfAFails") {
+		prox.uploadFault["a"] = "error"
+	}
+	prox.settle = rt.Param("settle", 1) == 1
 	ctx, cancel := context.WithCancel(context.Background())
 	prox.afterLists = cancel
 	pollForNewRequests(ctx, client, hp, "backend-1")
@@ -396,7 +410,9 @@ func VerifC04Agent() {
 		if listedOK[id] {
 			rt.Cover("C04.listed")
 			rt.Assert(count[id] == 1, "C04.listed-request-forwarded-exactly-once")
-			rt.Assert(prox.uploads[id] != nil, "C04.forwarded-request-is-answered")
+			if prox.uploadFault[id] == "" {
+				rt.Assert(prox.uploads[id] != nil, "C04.forwarded-request-is-answered")
+			}
 		} else {
 			rt.Assert(count[id] == 0, "C04.unlisted-request-never-forwarded")
 		}
